@@ -13,7 +13,12 @@ import (
 	"safecheck/relang"
 )
 
-func init() { register("C15", "other", runC15) }
+func init() {
+	register("C15", "other", func(p *Program, r *Report) {
+		runC15(p, r)
+		checkBoundsProven(p, r, "C15.B1", "style.go")
+	})
+}
 
 // documented alphabets (StyleProperties doc comments + statement), DESIGN A.7
 const (
